@@ -1,5 +1,4 @@
 import PfModel.Lemmas.Validate
-import PfModel.Generated.C12Facts
 /-!
 C12 — Ill-formed pipelines and inputs are rejected before any user code runs.
 
@@ -283,16 +282,6 @@ theorem C12_no_effects (fs : List MFunc) (r : Req) (e : VErr) (h : (startMap fs 
     · simp only [List.cons_append, List.nil_append, exec] at h ⊢
       simp [tail e h, Effect.isCall, Effect.isWrite]
   · rw [heq]; simp
-
-/-! ### the tie to the source: call order of `prepare_run` / `RunInfo.create` (regenerated from /repo on every run) -/
-
-/-- every call is classified, every required validation (complete inputs, consistent axes, fixed indices, storage names,
-    previous run, `_check_inputs`, `map_shapes`) comes before the first effect (`cls(...)` → dump, `init_store`, `init_tracker`),
-    and nothing validates after it -/
-theorem C12_order : validationsPrecedeEffects Generated.prepareRunCalls = true := by decide
-
-/-- the order in which the model's `startSteps` performs its steps is the order of the corresponding calls in the source -/
-theorem C12_order_model : isSubseq modelSourceOrder Generated.prepareRunCalls = true := by decide
 
 /-! ### non-vacuity and witnesses -/
 
